@@ -86,7 +86,12 @@ def _get_shortest_public_reexport(
     alias = None
     for module_id_tuple in module_ids:
         module_id_parts = module_id_tuple[0].split("/")
-        if shortest_id is None or len(module_id_parts) < len(shortest_id):
+        # Equally short paths are ordered alphabetically, so that the result does not depend on the order of the set
+        if (
+            shortest_id is None
+            or len(module_id_parts) < len(shortest_id)
+            or (len(module_id_parts) == len(shortest_id) and (module_id_parts, module_id_tuple[1] or "") < (shortest_id, alias or ""))
+        ):
             shortest_id = module_id_parts
             alias = module_id_tuple[1]
 
